@@ -715,4 +715,113 @@ theorem foldl_splice_copy (pre : List Int) (i : Int) (post : List Int) (g X : Li
     apply List.drop_eq_nil_of_le; omega
   rw [this, List.nil_append, List.take_append_of_le_length (by omega), List.take_length]
 
+/-! ### where the residues go: the re-mappings agree with what the loops do to the residues -/
+
+theorem delMap_nonneg (i k x y : Int) (hi : 0 ≤ i) (hx : 0 ≤ x) (h : delMap i k x = some y) : 0 ≤ y := by
+  unfold delMap at h
+  split at h
+  · simp only [Option.some.injEq] at h; omega
+  · split at h
+    · cases h
+    · simp only [Option.some.injEq] at h; omega
+
+theorem cutB_get (sg : Seg) (bs : List UInt8) (h0 : 0 ≤ sg.1) (hf : sg.1 ≤ sg.2) (x y : Int)
+    (hx : 0 ≤ x) (h : delMap sg.1 (Reg.gabs (sg.2 - sg.1)) x = some y) :
+    (cutB sg bs)[y.toNat]? = bs[x.toNat]? := by
+  have eg : Reg.gabs (sg.2 - sg.1) = sg.2 - sg.1 := by unfold Reg.gabs; split <;> omega
+  rw [eg] at h
+  unfold cutB
+  rw [eg, List.getElem?_append, List.getElem?_take, List.getElem?_drop, List.length_take]
+  unfold delMap at h
+  by_cases hm : x.toNat < bs.length
+  · split at h
+    · simp only [Option.some.injEq] at h; subst h
+      rw [if_pos (by omega), if_pos (by omega)]
+    · split at h
+      · cases h
+      · simp only [Option.some.injEq] at h; subst h
+        rw [if_neg (by omega)]
+        congr 1; omega
+  · have hn : bs[x.toNat]? = none := List.getElem?_eq_none (by omega)
+    rw [hn]
+    split at h
+    · simp only [Option.some.injEq] at h; subst h
+      split
+      · split
+        · exact hn
+        · rfl
+      · apply List.getElem?_eq_none; omega
+    · split at h
+      · cases h
+      · simp only [Option.some.injEq] at h; subst h
+        split
+        · split
+          · apply List.getElem?_eq_none; omega
+          · rfl
+        · apply List.getElem?_eq_none; omega
+
+theorem foldr_cutB_get (ss : List Seg) (bs : List UInt8) (hw : ∀ o ∈ ss, 0 ≤ o.1 ∧ o.1 ≤ o.2)
+    (x y : Int) (hx : 0 ≤ x) (h : composeDel ss x = some y) :
+    0 ≤ y ∧ (ss.foldr cutB bs)[y.toNat]? = bs[x.toNat]? := by
+  induction ss generalizing y with
+  | nil =>
+    simp only [composeDel, Option.some.injEq] at h
+    subst h
+    exact ⟨hx, rfl⟩
+  | cons a ss ih =>
+    have ha := hw a (List.mem_cons_self ..)
+    simp only [composeDel] at h
+    cases hz : composeDel ss x with
+    | none => simp [hz] at h
+    | some z =>
+      rw [hz, Option.bind_some] at h
+      obtain ⟨hz0, hzg⟩ := ih (fun o ho => hw o (List.mem_cons_of_mem _ ho)) z hz
+      refine ⟨delMap_nonneg _ _ z y ha.1 hz0 h, ?_⟩
+      rw [List.foldr_cons, cutB_get a _ ha.1 ha.2 z y hz0 h, hzg]
+
+theorem insMap_nonneg (i n x : Int) (hn : 0 ≤ n) (hx : 0 ≤ x) : 0 ≤ insMap i n x := by
+  unfold insMap; split <;> omega
+
+theorem splice_get (X g : List UInt8) (i x : Int) (hi : 0 ≤ i) (hx : 0 ≤ x) (hxl : x < X.length) :
+    (Seq.spliceBytes X i.toNat g)[(insMap i g.length x).toNat]? = X[x.toNat]? := by
+  unfold Seq.spliceBytes insMap
+  rw [List.append_assoc, List.getElem?_append, List.getElem?_take, List.length_take,
+    List.getElem?_append, List.getElem?_drop]
+  split
+  · rw [if_pos (by omega), if_pos (by omega)]
+  · rw [if_neg (by omega), if_neg (by omega)]
+    congr 1; omega
+
+theorem foldl_splice_get (idx : List Int) (g X : List UInt8) (hw : ∀ i ∈ idx, 0 ≤ i) (x : Int)
+    (hx : 0 ≤ x) (hxl : x < X.length) :
+    (idx.foldl (fun out i => Seq.spliceBytes out i.toNat g) X)[(composeIns g.length idx x).toNat]? =
+      X[x.toNat]? := by
+  induction idx generalizing X x with
+  | nil => rfl
+  | cons i idx ih =>
+    have hi := hw i (List.mem_cons_self ..)
+    rw [List.foldl_cons]
+    simp only [composeIns]
+    rw [ih (Seq.spliceBytes X i.toNat g) (fun a ha => hw a (List.mem_cons_of_mem _ ha)) (insMap i g.length x)
+      (insMap_nonneg _ _ _ (by omega) hx) (by
+        rw [splice_length]
+        unfold insMap; split <;> omega)]
+    exact splice_get X g i x hi hx hxl
+/-- reading residues through a partial re-mapping: a general list lemma -/
+theorem map_filterMapPos_eq {β : Type} (φ : Int → Option Int) (c : Pos → Bool) (F G : Pos → β)
+    (d : List Pos)
+    (h : ∀ p ∈ d, (φ p.1 = none ∧ c p = false) ∨ (∃ y, φ p.1 = some y ∧ c p = true ∧ F (y, p.2) = G p)) :
+    (filterMapPos φ d).map F = (d.filter c).map G := by
+  induction d with
+  | nil => rfl
+  | cons p d ih =>
+    have ih' := ih (fun q hq => h q (List.mem_cons_of_mem _ hq))
+    unfold filterMapPos at ih' ⊢
+    rcases h p (List.mem_cons_self ..) with ⟨h1, h2⟩ | ⟨y, h1, h2, h3⟩
+    · rw [List.filterMap_cons, h1, List.filter_cons, h2]
+      simpa using ih'
+    · rw [List.filterMap_cons, h1, List.filter_cons, h2]
+      simp only [Option.map_some, if_true, List.map_cons, h3]
+      rw [ih']
+
 end Gts.Cli
